@@ -1036,6 +1036,7 @@ fn do_xargs(args: &[&str]) -> Result<CommandResult, XargsError> {
                     (mutually exclusive with -L and -n)",
                 )
                 .overrides_with(options::REPLACE)
+                .allow_hyphen_values(true)
                 .value_parser(clap::value_parser!(String)),
         )
         .try_get_matches_from(args);
